@@ -826,6 +826,9 @@ class Module:
         self.fns = {}        # def name -> Fn  (duplicates get '#2' suffix)
         self.consts = {}     # def name -> Fn (const body)
         self.closures_by_loc = {}
+        self.static_allocs = {}     # alloc id -> name of the static item it holds
+        for mm in re.finditer(r'^(alloc\d+) \(static: ([^,)]+)', text, re.M):
+            self.static_allocs[mm.group(1)] = mm.group(2).strip()
         self._split(text)
 
     def _split(self, text):
